@@ -209,7 +209,8 @@ def make_invalid(rng, entry, kind, call, objs):
             objs['tok'] = 5
     elif kind == 'bad_measure':
         call['filter'] = dict(call['filter'], measure_spelling=None,
-                              measure=rng.choice(['JACCARDX', 'overlap_coefficient', 'LEVENSHTEIN', '', 'tfidf']))
+                              measure=rng.choice(['JACCARDX', 'overlap_coefficient', 'LEVENSHTEIN', '', 'tfidf',
+                                                  ' jaccard', 'COSINE\n', '\tDICE', 'JACCARD ', ' overlap ']))
     elif kind in ('unknown_l_key', 'unknown_r_key'):
         call[side + '_key'] = 'no_such_key'
     elif kind in ('unknown_l_attr', 'unknown_r_attr'):
@@ -246,6 +247,12 @@ def make_invalid(rng, entry, kind, call, objs):
     elif kind in ('l_key_nan', 'r_key_nan'):
         spec = dict(call[tname])
         spec['data'] = dict(spec['data'])
+        if rng.random() < 0.25 and T.spec_len(spec) > 1 and entry not in ('filter_candset', 'apply_matcher'):
+            # a table of exactly one row whose key is missing (uniqueness is trivial, the missing
+            # value is not)
+            spec['data'] = dict((c, list(v[:1])) for c, v in spec['data'].items())
+            if spec.get('index') is not None:
+                spec['index'] = list(spec['index'][:1])
         keys = list(spec['data'][side + 'id'])
         pos = rng.randrange(len(keys))
         spec['dtypes'] = dict(spec['dtypes'])
